@@ -2,6 +2,7 @@ package altair
 
 import (
 	"context"
+	"errors"
 
 	"github.com/protolambda/zrnt/eth2/beacon/common"
 )
@@ -139,15 +140,28 @@ func ProcessEpochRewardsAndPenalties(ctx context.Context, spec *common.Spec, epc
 		return err
 	}
 
-	valCount := uint64(len(attesterData.Flats))
-	sum := common.NewDeltas(valCount)
-	sum.Add(rewAndPenalties.Source)
-	sum.Add(rewAndPenalties.Target)
-	sum.Add(rewAndPenalties.Head)
-	sum.Add(rewAndPenalties.Inactivity)
-	balances, err := common.ApplyDeltas(state, sum)
+	// The spec applies the deltas one (rewards, penalties) pair after the other,
+	// with the balance saturating at zero after each pair: summing them first is different for drained balances.
+	balancesView, err := state.Balances()
 	if err != nil {
 		return err
+	}
+	balances, err := balancesView.AllBalances()
+	if err != nil {
+		return err
+	}
+	for _, deltas := range []*common.Deltas{rewAndPenalties.Source, rewAndPenalties.Target, rewAndPenalties.Head, rewAndPenalties.Inactivity} {
+		if len(deltas.Rewards) != len(balances) || len(deltas.Penalties) != len(balances) {
+			return errors.New("cannot apply deltas to balances list with different length")
+		}
+		for i := range balances {
+			balances[i] += deltas.Rewards[i]
+			if penalty := deltas.Penalties[i]; balances[i] >= penalty {
+				balances[i] -= penalty
+			} else {
+				balances[i] = 0
+			}
+		}
 	}
 	return state.SetBalances(balances)
 }
